@@ -43,8 +43,8 @@ def run(tier, seed):
         transitions += info["generated"]
     # ---- (2) fault-free synchronous case: liveness under weak fairness, every leader rotation ----
     for off in ([0, 1, 2, 3] if thorough else [0, 2]):
-        info = Q.run_exhaustive(PROP, "sync-offset%d" % off, module="MCQBFTCont", spec="SyncSpec", view=None, Byz="{}",
-                                LeaderOffset=off, MaxRound=1, ByzBudget=0, ByzActs="NoActs", Macro="FALSE",
+        info = Q.run_exhaustive(PROP, "sync-offset%d" % off, module="MCQBFTCont", spec="SyncSpec", view="view2", Byz="{}",
+                                LeaderOffset=off, MaxRound=1, ByzBudget=0, ByzActs="NoActs", Macro="TRUE",
                                 properties=("FirstRoundDecision",), invariants=("Agreement",),
                                 extra=['  SwitchWhen = "any"'], timeout=900)
         configs.append(info)
@@ -72,7 +72,10 @@ def run(tier, seed):
     for b in sync:
         last = b["steps"][-1].get("state", {}).get("st", {})
         b["params"] = dict(b["params"], expectSyncDecided=bool(last and _all_decided(last)))
-    res, inp = Q.replay(PROP, behs + sync, "cont", cont=True)
+    faulty = Q.faulty_copies(behs, len(behs) // 2)
+    for b in faulty:
+        b["params"]["expectDecided"] = False
+    res, inp = Q.replay(PROP, behs + sync + faulty, "cont", cont=True)
     Q.collect(PROP, res, verdict, inp, foreign)
     # ---- the driver's own search for a deciding timely continuation from every replayed prefix ----
     abehs, stale = Q.attack_behaviours(PROP, tier, PROP)
